@@ -319,11 +319,11 @@ func populateAddressObject(ao *AddressObject, h http.Header) error {
 		ao.Path = u.Path
 	}
 	if etag := h.Get("ETag"); etag != "" {
-		etag, err := strconv.Unquote(etag)
-		if err != nil {
+		var e internal.ETag
+		if err := e.UnmarshalText([]byte(etag)); err != nil {
 			return err
 		}
-		ao.ETag = etag
+		ao.ETag = string(e)
 	}
 	if contentLength := h.Get("Content-Length"); contentLength != "" {
 		n, err := strconv.ParseInt(contentLength, 10, 64)
